@@ -34,7 +34,8 @@ LEVEL_TEXT = ("Coq theorems about the model of the cache + browser logic. Histor
               "chain ends: C04_followup_stops_without_ptr; the checker's expected_followup follows). "
               "The universal statement chk_C04 = true is REFUTED for the faithful model in the four classes that stay "
               "as known findings (one vm_compute witness each: dotted label, record refreshed in its last second, second "
-              "SRV target, PTR withdrawn in the message that announces it (round 9), browse over an expiring PTR - the last found by the proof of clause F in round 5 and confirmed on "
+              "SRV target, PTR withdrawn in the message that announces it (round 9), a leftover Resolve command overlapping a new "
+              "series (seed sweep after round 9), browse over an expiring PTR - the last found by the proof of clause F in round 5 and confirmed on "
               "the daemon). Model tied to the Rust daemon by the K6 simulation (model trace = projected implementation "
               "trace); the extracted viol_C04 runs on the implementation's events, questions and requested wake-ups")
 TECHNIQUE = ("machine-checked proof in Coq (component theorems, refutation witnesses by vm_compute) + model/implementation "
@@ -61,7 +62,9 @@ PARTIAL = ("Status of viol_C04's failure kinds over all histories of the model: 
            "pending; stop_browse of the first name leaves it pending, neither up nor open, and the checker would open a "
            "non-stale obligation at the next ServiceFound while the model continues the old series - a further class "
            "(stop_browse while an instance is up under two names) is needed, and F04_many needs 'no two found instances "
-           "with the same lower-cased labels'. No generated history shows such a failure. F04_labels: not proved; needs "
+           "with the same lower-cased labels'. The seed sweep after round 9 then found the concrete shape of the obstacle - series "
+           "DO overlap: finding C04-stale-resolve-overlaps-series (class known_overlapping_series), the only F04_many "
+           "failures ever observed. F04_labels: not proved; needs "
            "the explicit datagram hypothesis (for every PTR record the decoder reads, the lower-cased labels of "
            "name_labels(alias) are among the reference parser's PTR targets of that datagram; C02 proves only ref_parse => "
            "decode) and the invariant 'cached PTR aliases and queued Resolve instances have their labels among the "
@@ -81,6 +84,7 @@ KNOWN = {
     "complete:srv-targets": "C04-second-srv-target",
     "order:browse-expiring-ptr": "C04-browse-over-expiring-ptr",
     "followup:withdrawn-same-message": "C04-found-withdrawn-in-same-message",
+    "many:overlapping-series": "C04-stale-resolve-overlaps-series",
 }
 
 
@@ -101,6 +105,7 @@ def generate(rng, tier):
         ("brexp", 40 * k, lambda r, i: bc.gen_special(r, i, "browse-expiring")),
         ("stoprebrowse", 120 * k, lambda r, i: bc.gen_special(r, i, "stop-rebrowse")),
         ("withdrawn", 30 * k, lambda r, i: bc.gen_special(r, i, "found-withdrawn")),
+        ("staleresolve", 60 * k, lambda r, i: bc.gen_special(r, i, "stale-resolve")),
         ("long", 3 * k, bc.gen_long),
     ])
 
